@@ -19,6 +19,7 @@ type vrtConn struct {
 	frames  [][]byte // every frame the client wrote (length header stripped)
 	writes  int
 	eof     bool // server closed its side after the queued bytes
+	eofWithData bool // the Read that returns the last queued bytes also returns io.EOF
 	rdErr   bool // a read error follows the queued bytes
 	wrErrAt int  // fail the k-th Write (1-based), 0 = never
 	closed  bool // Close called by the client
@@ -29,6 +30,7 @@ type vrtConn struct {
 	// "reply before the caller parks" window deterministically, also natively)
 	syncWrite   bool
 	readEntries int
+	inRead      int // Read calls in progress (blocked waiting for bytes)
 	replied     int // replies queued so far
 	markEntries int // readEntries when the last reply was queued
 	onWrite     func(frame []byte) // ghost hook, runs inside the atomic Write step
@@ -47,12 +49,15 @@ var (
 
 func (c *vrtConn) Read(p []byte) (n int, err error) {
 	if c.syncWrite {
-		vrtAtomic(func() { c.readEntries++ })
+		vrtAtomic(func() { c.readEntries++; c.inRead++ })
 	}
 	vrtAwait(func() bool {
 		return vrtOr(len(c.rx) > 0, len(c.rxFrame) > 0, c.eof, c.rdErr, c.closed, c.rdExpired)
 	}, func() {
 		c.reads++
+		if c.syncWrite {
+			c.inRead--
+		}
 		switch {
 		case c.closed:
 			err = vrtErrUse
@@ -61,6 +66,9 @@ func (c *vrtConn) Read(p []byte) (n int, err error) {
 		case len(c.rx) > 0:
 			n = copy(p, c.rx)
 			c.rx = c.rx[n:]
+			if c.eofWithData && c.eof && len(c.rx) == 0 {
+				err = io.EOF // the last bytes and the end of the stream arrive in one Read (io.Reader allows it; TLS does it)
+			}
 		case len(c.rxFrame) > 0:
 			n = copy(p, c.rxFrame[0])
 			c.rxFrame = c.rxFrame[1:]
@@ -96,14 +104,12 @@ func (c *vrtConn) Write(p []byte) (n int, err error) {
 	})
 	if c.syncWrite && err == nil {
 		k := len(c.frames)
-		need := 1
-		if c.stream {
-			need = 2
-		}
-		// ... and, if the server closes right after that reply, until the reader has seen the EOF
+		// the reader has taken every byte of the reply to this frame and is waiting for more (however
+		// many Read calls it needed for that): the reply has been handed to its caller ...
+		// ... and, if the server closes right after that reply, the reader has seen the EOF
 		// and closed the connection (reply and close both consumed "during the send")
 		vrtAwait(func() bool {
-			return vrtOr(c.closed, vrtAnd(c.replied >= k, c.readEntries >= c.markEntries+need, !c.eof))
+			return vrtOr(c.closed, vrtAnd(c.replied >= k, len(c.rx) == 0, len(c.rxFrame) == 0, c.inRead > 0, !c.eof))
 		}, func() {})
 	}
 	return
